@@ -1276,20 +1276,22 @@ Ltac step_none tac :=
 Section CipherProofs.
 Variable E D : list N -> list N -> list N.
 Hypothesis E_len : forall k b, length (E k b) = 16%nat.
-Hypothesis DE : forall k b, length b = 16%nat -> D k (E k b) = b.
+Variable kwdom : list N -> list N -> Prop.
+Hypothesis KW : forall k data, kwdom k data -> (length data mod 8 = 0)%nat ->
+  length (kw_wrap (E k) data) = (8 + length data)%nat /\ kw_unwrap (D k) (kw_wrap (E k) data) = Some data.
 
 Definition signed_len_of (x : sbin) : nat :=
   (208 + cb_raw_size (x_cb x) + (if has_sha (x_flags x) then 32 else 0))%nat.
 
 Lemma rom21_build_lemma counted x file :
-  wf_sbin x -> (counted = true \/ has_sha (x_flags x) = false) ->
+  wf_sbin x -> kwdom (x_kek x) (x_dek x ++ x_mac x) -> (counted = true \/ has_sha (x_flags x) = false) ->
   build21_gen E counted x = Ok file ->
   exists r, rom21 E D (x_sigsize x) (x_kek x) file = Some r /\
      r_secs r = spec_of (x_secs x) /\ r_flags r = x_flags x /\ r_pv r = x_pv x /\ r_cv r = x_cv x /\
      r_build r = x_build x /\ r_ts r = x_ts x /\ r_major r = 2 /\ r_minor r = 1 /\
      r_sig r = x_sig x /\ r_signed_len r = signed_len_of x.
 Proof.
-  intros (Wsecs & Wdek & Wmac & Wsig & Wpv & Wcv) Hcnt H. unfold build21_gen in H.
+  intros (Wsecs & Wdek & Wmac & Wsig & Wpv & Wcv) Hdom Hcnt H. unfold build21_gen in H.
   destruct (x_secs x) as [|s0 st] eqn:Esecs; [discriminate|]. rewrite <- Esecs in *.
   destruct (secs_raw_size (x_secs x)) as [ssz|] eqn:Essz; [|discriminate].
   set (cbraw := cb_raw_size (x_cb x)) in *.
@@ -1313,12 +1315,13 @@ Proof.
   set (kb := kb0 ++ zeros (N.to_nat V21_KEY_BLOB_SIZE - length kb0)) in *.
   destruct (cb_export (x_cb x) (x_build x) (N.of_nat (PRE_SIZE + cbraw))) as [cbb|] eqn:Ecb; [|discriminate].
   set (shab := if sha then sha256 bs else []) in *.
+  rewrite Wsig, Nat.eqb_refl in H. cbn [negb] in H.
   injection H as <-.
   (* ---- lengths of the pieces *)
   destruct (ihdr_export_inv hdr hb Ehb) as (_ & _ & _ & _ & Lhb).
   assert (Lhm : length hm = 32%nat) by apply hmac256_length.
   assert (Hdm : (length (x_dek x ++ x_mac x) mod 8 = 0)%nat) by (rewrite app_length, Wdek, Wmac; reflexivity).
-  destruct (kw_wrap_unwrap (E (x_kek x)) (D (x_kek x)) (E_len _) (DE _) (x_dek x ++ x_mac x) Hdm) as [Lkb0 Hunwrap].
+  destruct (KW (x_kek x) (x_dek x ++ x_mac x) Hdom Hdm) as [Lkb0 Hunwrap].
   fold (wrap_keys E (x_kek x) (x_dek x) (x_mac x)) in Lkb0, Hunwrap. fold kb0 in Lkb0, Hunwrap.
   rewrite app_length, Wdek, Wmac in Lkb0. change (8 + (32 + 32))%nat with 72%nat in Lkb0.
   assert (Lkb : length kb = 80%nat) by (unfold kb; rewrite app_length, zeros_length, Lkb0; reflexivity).
@@ -1540,11 +1543,13 @@ End Shape.
 Section CipherProofs2.
 Variable E D : list N -> list N -> list N.
 Hypothesis E_len : forall k b, length (E k b) = 16%nat.
-Hypothesis DE : forall k b, length b = 16%nat -> D k (E k b) = b.
+Variable kwdom : list N -> list N -> Prop.
+Hypothesis KW : forall k data, kwdom k data -> (length data mod 8 = 0)%nat ->
+  length (kw_wrap (E k) data) = (8 + length data)%nat /\ kw_unwrap (D k) (kw_wrap (E k) data) = Some data.
 
 (* the shape of every file the builder returns *)
 Lemma build21_inv counted x file :
-  wf_sbin x -> build21_gen E counted x = Ok file ->
+  wf_sbin x -> kwdom (x_kek x) (x_dek x ++ x_mac x) -> build21_gen E counted x = Ok file ->
   exists hb hm kb cbb bs k,
     let shab := if has_sha (x_flags x) then sha256 bs else [] in
     let signed := hb ++ hm ++ kb ++ cbb ++ shab in
@@ -1557,10 +1562,11 @@ Lemma build21_inv counted x file :
     kw_unwrap (D (x_kek x)) (firstn 72 kb) = Some (x_dek x ++ x_mac x) /\
     hm = hmac256 (x_mac x) (slice bs 16 (48 + 32 * k)) /\
     (exists ib fbtb fbsid mm,
-       ihdr_export (mkIhdr (x_nonce x) (x_pad x) 2 1 (x_flags x) ib fbtb fbsid 208 6 8 5 mm (x_ts x) (x_pv x) (x_cv x) (x_build x)) = Ok hb) /\
+       ihdr_export (mkIhdr (x_nonce x) (x_pad x) 2 1 (x_flags x) ib fbtb fbsid 208 6 8 5 mm (x_ts x) (x_pv x) (x_cv x) (x_build x)) = Ok hb /\
+       (counted = true \/ has_sha (x_flags x) = false -> ib = N.of_nat (length file / 16) /\ (length file mod 16 = 0)%nat)) /\
     cb_export (x_cb x) (x_build x) (N.of_nat (208 + cb_raw_size (x_cb x))) = Ok cbb.
 Proof.
-  intros (Wsecs & Wdek & Wmac & Wsig & Wpv & Wcv) H. unfold build21_gen in H.
+  intros (Wsecs & Wdek & Wmac & Wsig & Wpv & Wcv) Hdom H. unfold build21_gen in H.
   destruct (x_secs x) as [|s0 st] eqn:Esecs; [discriminate|]. rewrite <- Esecs in *.
   destruct (secs_raw_size (x_secs x)) as [ssz|] eqn:Essz; [|discriminate].
   set (cbraw := cb_raw_size (x_cb x)) in *.
@@ -1583,11 +1589,12 @@ Proof.
   set (kb0 := wrap_keys E (x_kek x) (x_dek x) (x_mac x)) in *.
   set (kb := kb0 ++ zeros (N.to_nat V21_KEY_BLOB_SIZE - length kb0)) in *.
   destruct (cb_export (x_cb x) (x_build x) (N.of_nat (PRE_SIZE + cbraw))) as [cbb|] eqn:Ecb; [|discriminate].
+  rewrite Wsig, Nat.eqb_refl in H. cbn [negb] in H.
   injection H as <-.
   destruct (ihdr_export_inv hdr hb Ehb) as (_ & _ & _ & _ & Lhb).
   assert (Lhm : length hm = 32%nat) by apply hmac256_length.
   assert (Hdm : (length (x_dek x ++ x_mac x) mod 8 = 0)%nat) by (rewrite app_length, Wdek, Wmac; reflexivity).
-  destruct (kw_wrap_unwrap (E (x_kek x)) (D (x_kek x)) (E_len _) (DE _) (x_dek x ++ x_mac x) Hdm) as [Lkb0 Hunwrap].
+  destruct (KW (x_kek x) (x_dek x ++ x_mac x) Hdom Hdm) as [Lkb0 Hunwrap].
   fold (wrap_keys E (x_kek x) (x_dek x) (x_mac x)) in Lkb0, Hunwrap. fold kb0 in Lkb0, Hunwrap.
   rewrite app_length, Wdek, Wmac in Lkb0. change (8 + (32 + 32))%nat with 72%nat in Lkb0.
   assert (Lkb : length kb = 80%nat) by (unfold kb; rewrite app_length, zeros_length, Lkb0; reflexivity).
@@ -1605,7 +1612,14 @@ Proof.
   split; [unfold aligned16 in Abs; now apply Nat.eqb_eq in Abs|]. split; [exact Ebs|]. split.
   - unfold kb. rewrite (firstn_app_exact kb0 _ 72 Lkb0). exact Hunwrap.
   - split; [unfold hm; f_equal; f_equal; lia|]. split; [|exact Ecb].
-    eexists _, _, _, _. exact Ehb.
+    eexists _, _, _, _. split; [exact Ehb|]. intros Hcnt.
+    assert (Htag : tagoff = bsoff).
+    { unfold tagoff, bsoff, cnt. destruct Hcnt as [->|Hs]; [reflexivity|]. unfold shasz. rewrite Hs.
+      destruct counted; reflexivity. }
+    pose proof (secs_raw_size_ok (E (x_dek x)) (E_len _) (x_mac x) (x_nonce x) _ _ _ _ Wsecs Ebs Essz) as Hssz.
+    assert (Lfile : length ((hb ++ hm ++ kb ++ cbb ++ (if sha then sha256 bs else [])) ++ x_sig x ++ bs) = rawsz).
+    { rewrite !app_length. rewrite !app_length in Lsigned. unfold rawsz. rewrite Htag, Hssz. unfold bsoff. lia. }
+    rewrite Lfile. unfold aligned16 in Araw. apply Nat.eqb_eq in Araw. split; [reflexivity|exact Araw].
 Qed.
 
 End CipherProofs2.
@@ -1613,15 +1627,17 @@ End CipherProofs2.
 Section CipherProofs3.
 Variable E D : list N -> list N -> list N.
 Hypothesis E_len : forall k b, length (E k b) = 16%nat.
-Hypothesis DE : forall k b, length b = 16%nat -> D k (E k b) = b.
+Variable kwdom : list N -> list N -> Prop.
+Hypothesis KW : forall k data, kwdom k data -> (length data mod 8 = 0)%nat ->
+  length (kw_wrap (E k) data) = (8 + length data)%nat /\ kw_unwrap (D k) (kw_wrap (E k) data) = Some data.
 
 Lemma counter_agreement_lemma counted x file :
-  wf_sbin x -> build21_gen E counted x = Ok file ->
+  wf_sbin x -> kwdom (x_kek x) (x_dek x ++ x_mac x) -> build21_gen E counted x = Ok file ->
   exists pre bs, file = pre ++ bs /\ (length pre mod 16 = 0)%nat /\
     secs_export (E (x_dek x)) (x_mac x) (x_nonce x) (ctr_of_nonce (x_nonce x) + N.of_nat (length pre / 16)) (x_secs x) = Ok bs /\
     rom_sections (E (x_dek x)) (S (length file)) (x_mac x) (x_nonce x) file (length pre) (length file) = Some (spec_of (x_secs x)).
 Proof.
-  intros W H. destruct (build21_inv E D E_len DE counted x file W H) as (hb & hm & kb & cbb & bs & k & Hinv).
+  intros W Hdom H. destruct (build21_inv E D E_len kwdom KW counted x file W Hdom H) as (hb & hm & kb & cbb & bs & k & Hinv).
   cbv zeta in Hinv. destruct Hinv as (Hfile & _ & _ & _ & _ & _ & Hal & Hexp & _).
   destruct W as (Wsecs & _ & _ & Wsig & _).
   set (signed := hb ++ hm ++ kb ++ cbb ++ (if has_sha (x_flags x) then sha256 bs else [])) in *.
@@ -1637,7 +1653,7 @@ Proof.
 Qed.
 
 Lemma coverage21_lemma counted x file :
-  wf_sbin x -> build21_gen E counted x = Ok file ->
+  wf_sbin x -> kwdom (x_kek x) (x_dek x ++ x_mac x) -> build21_gen E counted x = Ok file ->
   exists hb hm kb cbb bs k,
     let signed := hb ++ hm ++ kb ++ cbb ++ (if has_sha (x_flags x) then sha256 bs else []) in
     file = signed ++ x_sig x ++ bs /\
@@ -1647,7 +1663,7 @@ Lemma coverage21_lemma counted x file :
     hm = hmac256 (x_mac x) (slice bs 16 (48 + 32 * k)) /\
     covered (x_mac x) bs (length (x_secs x)).
 Proof.
-  intros W H. destruct (build21_inv E D E_len DE counted x file W H) as (hb & hm & kb & cbb & bs & k & Hinv).
+  intros W Hdom H. destruct (build21_inv E D E_len kwdom KW counted x file W Hdom H) as (hb & hm & kb & cbb & bs & k & Hinv).
   cbv zeta in Hinv. destruct Hinv as (Hfile & L1 & L2 & L3 & L4 & L5 & _ & Hexp & Hkw & Hhm & _).
   destruct W as (Wsecs & _ & _ & Wsig & _).
   exists hb, hm, kb, cbb, bs, k. cbv zeta.
@@ -1763,26 +1779,61 @@ Proof.
   rewrite Lb. reflexivity.
 Qed.
 
+Definition sec_obs_rel (s : section) (so : N * N * list pcmd) : Prop :=
+  exists cd os, cmds_export (s_cmds s) = Ok cd /\ Forall2 (fun c o => cmd_obs c = Ok o) (s_cmds s) os /\
+                so = (s_uid s, N.of_nat (sec_hmac_count (s_hmac s) (length cd)), os).
+
+Lemma secs_export_parse mac nonce : forall ss ctr bs,
+  secs_wf ss -> secs_export ek mac nonce ctr ss = Ok bs ->
+  exists oss, Forall2 sec_obs_rel ss oss /\
+  forall pre post off fuel, length pre = off -> (length ss < fuel)%nat ->
+    secs_parse fuel ek mac nonce ctr (pre ++ bs ++ post) off (off + length bs) = Ok oss.
+Proof.
+  induction ss as [|s t IH]; intros ctr bs W H.
+  - cbn [secs_export] in H. injection H as <-. exists []. split; [constructor|].
+    intros pre post off fuel Hpre Hfuel. destruct fuel as [|f]; [lia|].
+    cbn [secs_parse length]. rewrite Nat.add_0_r, Nat.leb_refl. reflexivity.
+  - inversion W as [|? ? Ws Wt]; subst. cbn [secs_export] in H.
+    destruct (sec_export ek mac nonce ctr s) as [b|] eqn:Eb; [|discriminate].
+    destruct (secs_export ek mac nonce (ctr + N.of_nat (length b / 16)) t) as [r|] eqn:Er; [|discriminate].
+    injection H as <-.
+    destruct (sec_export_rom ek ek_len mac nonce ctr s b Ws Eb) as (Hb48 & _).
+    destruct (sec_export_parse mac nonce ctr s b Ws Eb) as (os & cd & Hcd & Hos & Hparse).
+    destruct (IH _ _ Wt Er) as (oss & Hrel & Hrest).
+    exists ((s_uid s, N.of_nat (sec_hmac_count (s_hmac s) (length cd)), os) :: oss). split.
+    + constructor; [exists cd, os; auto | exact Hrel].
+    + intros pre post off fuel Hpre Hfuel. destruct fuel as [|f]; [lia|].
+      cbn [secs_parse]. rewrite app_length.
+      replace (Nat.leb (off + (length b + length r)) off) with false by (symmetry; apply Nat.leb_gt; lia).
+      rewrite <- app_assoc. rewrite (Hparse pre (r ++ post) off Hpre).
+      rewrite (app_assoc pre b).
+      replace (off + (length b + length r))%nat with ((off + length b) + length r)%nat by lia.
+      rewrite (Hrest (pre ++ b) post (off + length b)%nat f); [reflexivity| rewrite app_length; lia | cbn [length] in Hfuel; lia].
+Qed.
+
 End ParseProofs.
 
 Section ParseImage.
 Variable E D : list N -> list N -> list N.
 Hypothesis E_len : forall k b, length (E k b) = 16%nat.
-Hypothesis DE : forall k b, length b = 16%nat -> D k (E k b) = b.
+Variable kwdom : list N -> list N -> Prop.
+Hypothesis KW : forall k data, kwdom k data -> (length data mod 8 = 0)%nat ->
+  length (kw_wrap (E k) data) = (8 + length data)%nat /\ kw_unwrap (D k) (kw_wrap (E k) data) = Some data.
 
-Lemma parse21_first_section_lemma counted x file :
-  wf_sbin x -> bcd3 (x_pv x) = true -> bcd3 (x_cv x) = true -> aes_key_ok (x_kek x) = true ->
-  build21_gen E counted x = Ok file ->
-  exists s0 rest os cd,
-    x_secs x = s0 :: rest /\ cmds_export (s_cmds s0) = Ok cd /\ Forall2 (fun c o => cmd_obs c = Ok o) (s_cmds s0) os /\
+Lemma spsdk_parse21_build_lemma x file :
+  wf_sbin x -> kwdom (x_kek x) (x_dek x ++ x_mac x) ->
+  bcd3 (x_pv x) = true -> bcd3 (x_cv x) = true -> aes_key_ok (x_kek x) = true ->
+  build21_gen E true x = Ok file ->
+  exists oss, Forall2 sec_obs_rel (x_secs x) oss /\
     parse21 E D true (x_sigsize x) (x_kek x) file =
-    Ok (mkParsed 32776 (x_pv x) (x_cv x) (x_build x) (x_ts x / 1000000 * 1000000) (x_nonce x) (x_dek x) (x_mac x)
-                 [(s_uid s0, N.of_nat (sec_hmac_count (s_hmac s0) (length cd)), os)] (signed_len_of x) (x_sigsize x)).
+    Ok (mkParsed (x_flags x) (x_pv x) (x_cv x) (x_build x) (x_ts x / 1000000 * 1000000) (x_nonce x) (x_dek x) (x_mac x)
+                 oss (signed_len_of x) (x_sigsize x)).
 Proof.
-  intros W Hpv Hcv Hkek H.
-  destruct (build21_inv E D E_len DE counted x file W H) as (hb & hm & kb & cbb & bs & k & Hinv).
+  intros W Hdom Hpv Hcv Hkek H.
+  destruct (build21_inv E D E_len kwdom KW true x file W Hdom H) as (hb & hm & kb & cbb & bs & k & Hinv).
   cbv zeta in Hinv.
-  destruct Hinv as (Hfile & Lhb & Lhm & Lkb & Lcbb & Lsigned & Hal & Hexp & Hkw & _ & (ib & fbtb & fbsid & mm & Ehb) & Ecb).
+  destruct Hinv as (Hfile & Lhb & Lhm & Lkb & Lcbb & Lsigned & Hal & Hexp & Hkw & _ & (ib & fbtb & fbsid & mm & Ehb & Hib) & Ecb).
+  destruct (Hib (or_introl eq_refl)) as [Hib1 Hfm]. clear Hib.
   destruct W as (Wsecs & Wdek & Wmac & Wsig & _ & _).
   set (sha := has_sha (x_flags x)) in *.
   set (cbraw := cb_raw_size (x_cb x)) in *.
@@ -1791,20 +1842,14 @@ Proof.
   set (shasz := if sha then 32%nat else 0%nat).
   assert (Lshab : length shab = shasz) by (unfold shab, shasz; destruct sha; [apply sha256_length|reflexivity]).
   unfold signed_len_of in *. fold sha cbraw shasz in Lsigned |- *.
-  (* first section *)
-  destruct (x_secs x) as [|s0 st] eqn:Esecs.
-  { unfold build21_gen in H. rewrite Esecs in H. discriminate. }
-  rewrite Lsigned in Hexp. cbn [secs_export] in Hexp.
-  destruct (sec_export (E (x_dek x)) (x_mac x) (x_nonce x) _ s0) as [b0|] eqn:Eb0; [|discriminate].
-  destruct (secs_export (E (x_dek x)) (x_mac x) (x_nonce x) _ st) as [r0|] eqn:Er0; [|discriminate].
-  injection Hexp as Hbs.
-  assert (Ws0 : forallb wf_cmd (s_cmds s0) = true) by now inversion Wsecs.
-  destruct (sec_export_parse (E (x_dek x)) (E_len _) _ _ _ _ _ Ws0 Eb0) as (os & cd & Hcd & Hos & Hparse).
-  exists s0, st, os, cd. split; [reflexivity|]. split; [exact Hcd|]. split; [exact Hos|].
-  (* the parser *)
-  rewrite Lsigned in Hal.
+  rewrite Lsigned in Hexp, Hal.
   set (index2 := (208 + cbraw + shasz + x_sigsize x)%nat) in *.
+  destruct (secs_export_parse (E (x_dek x)) (E_len _) _ _ _ _ _ Wsecs Hexp) as (oss & Hrel & Hparse).
+  exists oss. split; [exact Hrel|].
   assert (Lpre : length (signed ++ x_sig x) = index2) by (rewrite app_length, Lsigned, Wsig; reflexivity).
+  assert (Lfile : length file = (index2 + length bs)%nat) by (rewrite Hfile, app_assoc, app_length, Lpre; reflexivity).
+  assert (Hnsec : (length (x_secs x) <= length bs)%nat).
+  { destruct (secs_export_rom (E (x_dek x)) (E_len _) _ _ _ _ _ Wsecs Hexp) as (_ & Hl & _). lia. }
   unfold parse21. destruct (x_kek x) as [|k0 kt] eqn:Ekek; [discriminate Hkek|]. rewrite <- Ekek in *.
   change (IHDR_SIZE + 32)%nat with 128%nat. change PRE_SIZE with 208%nat. change IHDR_SIZE with 96%nat.
   assert (Skb : slice file 128 208 = kb).
@@ -1819,7 +1864,7 @@ Proof.
   { rewrite Hfile. unfold signed. rewrite <- !app_assoc. replace 96%nat with (0 + length hb)%nat by (rewrite Lhb; reflexivity).
     apply (slice_at [] hb). reflexivity. }
   rewrite Shb. rewrite <- (app_nil_r hb). rewrite (ihdr_parse_export _ hb [] Ehb Hpv Hcv).
-  cbn [ih_cert_off ih_flags ih_nonce ih_pv ih_cv ih_build ih_ts]. change (208 =? N.of_nat 208) with true. cbn [negb].
+  cbn [ih_cert_off ih_flags ih_nonce ih_pv ih_cv ih_build ih_ts ih_image_blocks]. change (208 =? N.of_nat 208) with true. cbn [negb].
   (* certificate block size *)
   assert (Sk208 : skipn 208 file = cbb ++ shab ++ x_sig x ++ bs).
   { rewrite Hfile. unfold signed. rewrite <- !app_assoc. rewrite (app_assoc hb hm), (app_assoc (hb ++ hm) kb).
@@ -1850,9 +1895,11 @@ Proof.
   replace (if sha then (208 + cbraw + 32)%nat else (208 + cbraw)%nat) with (208 + cbraw + shasz)%nat
     by (unfold shasz; destruct sha; lia).
   fold index2. unfold aligned16. rewrite Hal. cbn [Nat.eqb negb].
-  (* first section *)
-  assert (Hfile2 : file = (signed ++ x_sig x) ++ b0 ++ r0) by (rewrite Hfile, <- Hbs, <- app_assoc; reflexivity).
-  rewrite Hfile2 at 1. rewrite (Hparse (signed ++ x_sig x) r0 index2 Lpre).
+  (* all sections, up to image_blocks * 16 = the end of the file *)
+  replace (N.to_nat (N.min (ib * 16) (nlen file + 1))) with (index2 + length bs)%nat
+    by (rewrite Hib1; unfold nlen; rewrite Lfile in *; lia).
+  assert (Hfile2 : file = (signed ++ x_sig x) ++ bs ++ []) by (rewrite Hfile, app_nil_r, <- app_assoc; reflexivity).
+  rewrite Hfile2 at 2. rewrite (Hparse (signed ++ x_sig x) [] index2 (S (length file)) Lpre) by (rewrite Lfile; lia).
   (* SHA-256 over all section bytes *)
   assert (Hshack : sha && negb (eqb_list (slice file (208 + cbraw) (208 + cbraw + 32)) (sha256 (skipn index2 file))) = false).
   { destruct sha eqn:Esha; [|reflexivity]. cbn [andb]. apply negb_false_iff.
@@ -1964,196 +2011,4 @@ Lemma parse21_refuted_lemma :
 Proof.
   exists (demo 8 demo_secs). eexists. eexists. split; [apply demo_wf|]. split; [vm_compute; reflexivity|].
   split; [vm_compute; reflexivity|]. vm_compute. repeat split.
-Qed.
-
-(* ================================================================== statements of the property theorems (Props/C04) *)
-
-Lemma cmd_roundtrip_thm :
-  forall c, wf_cmd c = true ->
-  exists b o, cmd_export c = Ok b /\ cmd_obs c = Ok o /\ (16 <= length b)%nat /\ (length b mod 16 = 0)%nat /\
-              pcmd_size o = length b /\ forall rest, cmd_parse (b ++ rest) = Ok o.
-Proof.
-  intros c W. destruct (cmd_ok c W) as (b & o & H1 & H2 & H3 & H4 & H5 & H6). exists b, o.
-  split; [assumption|]. split; [assumption|]. split; [assumption|]. split; [assumption|]. split; [assumption|].
-  intros rest. apply H6.
-Qed.
-
-Lemma rom_cmd_decodes_thm :
-  forall c, wf_cmd c = true ->
-  exists b, cmd_export c = Ok b /\ forall rest, rom_cmd (b ++ rest) = Some (sem c, length b).
-Proof.
-  intros c W. destruct (cmd_ok c W) as (b & o & H1 & _ & _ & _ & _ & H6). exists b. split; [assumption|]. intros rest. apply H6.
-Qed.
-
-Lemma cmd_stream_roundtrip_thm :
-  forall cs, forallb wf_cmd cs = true ->
-  exists bs os, cmds_export cs = Ok bs /\ (length bs mod 16 = 0)%nat /\
-                Forall2 (fun c o => cmd_obs c = Ok o) cs os /\
-                cmds_parse (S (length bs)) bs = Ok os /\ rom_cmds (S (length bs)) bs = Some (map sem cs).
-Proof.
-  intros cs W. destruct (cmds_stream cs W) as (bs & os & H1 & H2 & H3 & H4 & H5). exists bs, os.
-  assert (F : (length cs < S (length bs))%nat) by lia.
-  destruct (H5 _ F). repeat split; assumption.
-Qed.
-
-Lemma header_roundtrip_thm :
-  forall h hb rest, ihdr_export h = Ok hb -> bcd3 (ih_pv h) = true -> bcd3 (ih_cv h) = true ->
-  length hb = 96%nat /\ ihdr_parse (hb ++ rest) = Ok h.
-Proof.
-  intros h hb rest He Hp Hc. split; [apply (ihdr_export_inv h hb He) | now apply ihdr_parse_export].
-Qed.
-
-Lemma layouts_agree_thm :
-  rom_cmdhdr_layout = cmdhdr_format /\ rom_imghdr_layout = imghdr_format /\ rom_certhdr_layout = certhdr_format.
-Proof.
-  exact layouts_agree_lemma.
-Qed.
-
-Lemma hmac_groups_cover_thm :
-  forall mac n per body, (0 < n)%nat ->
-  concat (hmac_groups n per body) = body /\ length (hmac_groups n per body) = n /\
-  rom_groups_ok mac n per body (concat (map (hmac256 mac) (hmac_groups n per body))) = true.
-Proof.
-  intros mac n per body Hn. split; [now apply hmac_groups_concat|]. split; [apply hmac_groups_length| now apply rom_groups_ok_built].
-Qed.
-
-Lemma keyblob_unwraps_thm :
-  forall (E D : list N -> list N),
-  (forall b, length (E b) = 16%nat) -> (forall b, length b = 16%nat -> D (E b) = b) ->
-  forall data, (length data mod 8 = 0)%nat ->
-  length (kw_wrap E data) = (8 + length data)%nat /\ kw_unwrap D (kw_wrap E data) = Some data.
-Proof.
-  exact kw_wrap_unwrap.
-Qed.
-
-Lemma rom_section_decodes_thm :
-  forall (ek : list N -> list N), (forall b, length (ek b) = 16%nat) ->
-  forall mac nonce ctr s b,
-  forallb wf_cmd (s_cmds s) = true -> sec_export ek mac nonce ctr s = Ok b ->
-  (48 <= length b)%nat /\ (length b mod 16 = 0)%nat /\
-  forall pre post off,
-    length pre = off -> (off mod 16 = 0)%nat -> ctr = ctr_of_nonce nonce + N.of_nat (off / 16) ->
-    rom_section ek mac nonce (pre ++ b ++ post) off = Some (s_uid s, map sem (s_cmds s), length b).
-Proof.
-  intros ek Hek mac nonce ctr s b W H. destruct (sec_export_rom ek Hek mac nonce ctr s b W H) as (H1 & H2 & _ & _ & H5). auto.
-Qed.
-
-Lemma rom21_build_except_known_thm :
-  forall (E D : list N -> list N -> list N),
-  (forall k b, length (E k b) = 16%nat) -> (forall k b, length b = 16%nat -> D k (E k b) = b) ->
-  forall x file, wf_sbin x -> has_sha (x_flags x) = false -> build21_gen E false x = Ok file ->
-  exists r, rom21 E D (x_sigsize x) (x_kek x) file = Some r /\
-     r_secs r = spec_of (x_secs x) /\ r_flags r = x_flags x /\ r_pv r = x_pv x /\ r_cv r = x_cv x /\
-     r_build r = x_build x /\ r_ts r = x_ts x /\ r_major r = 2 /\ r_minor r = 1 /\
-     r_sig r = x_sig x /\ r_signed_len r = signed_len_of x.
-Proof.
-  intros E D HE HD x file W Hs H. apply (rom21_build_lemma E D HE HD false x file W (or_intror Hs) H).
-Qed.
-
-Lemma rom21_build_fixed_thm :
-  forall (E D : list N -> list N -> list N),
-  (forall k b, length (E k b) = 16%nat) -> (forall k b, length b = 16%nat -> D k (E k b) = b) ->
-  forall x file, wf_sbin x -> build21_gen E true x = Ok file ->
-  exists r, rom21 E D (x_sigsize x) (x_kek x) file = Some r /\
-     r_secs r = spec_of (x_secs x) /\ r_flags r = x_flags x /\ r_pv r = x_pv x /\ r_cv r = x_cv x /\
-     r_build r = x_build x /\ r_ts r = x_ts x /\ r_major r = 2 /\ r_minor r = 1 /\
-     r_sig r = x_sig x /\ r_signed_len r = signed_len_of x.
-Proof.
-  intros E D HE HD x file W H. apply (rom21_build_lemma E D HE HD true x file W (or_introl eq_refl) H).
-Qed.
-
-Lemma sections_all_thm :
-  forall (E D : list N -> list N -> list N),
-  (forall k b, length (E k b) = 16%nat) -> (forall k b, length b = 16%nat -> D k (E k b) = b) ->
-  forall counted x file, wf_sbin x -> (counted = true \/ has_sha (x_flags x) = false) -> build21_gen E counted x = Ok file ->
-  exists r, rom21 E D (x_sigsize x) (x_kek x) file = Some r /\
-            length (r_secs r) = length (x_secs x) /\ map fst (r_secs r) = map s_uid (x_secs x).
-Proof.
-  intros E D HE HD counted x file W Hc H.
-  destruct (rom21_build_lemma E D HE HD counted x file W Hc H) as (r & Hr & Hs & _). exists r. split; [exact Hr|].
-  rewrite Hs. unfold spec_of. rewrite map_length, map_map. split; reflexivity.
-Qed.
-
-Lemma counter_agreement_thm :
-  forall (E D : list N -> list N -> list N),
-  (forall k b, length (E k b) = 16%nat) -> (forall k b, length b = 16%nat -> D k (E k b) = b) ->
-  forall counted x file, wf_sbin x -> build21_gen E counted x = Ok file ->
-  exists pre bs, file = pre ++ bs /\ (length pre mod 16 = 0)%nat /\
-    secs_export (E (x_dek x)) (x_mac x) (x_nonce x) (ctr_of_nonce (x_nonce x) + N.of_nat (length pre / 16)) (x_secs x) = Ok bs /\
-    rom_sections (E (x_dek x)) (S (length file)) (x_mac x) (x_nonce x) file (length pre) (length file) = Some (spec_of (x_secs x)).
-Proof.
-  exact counter_agreement_lemma.
-Qed.
-
-Lemma coverage21_thm :
-  forall (E D : list N -> list N -> list N),
-  (forall k b, length (E k b) = 16%nat) -> (forall k b, length b = 16%nat -> D k (E k b) = b) ->
-  forall counted x file, wf_sbin x -> build21_gen E counted x = Ok file ->
-  exists hb hm kb cbb bs k,
-    let signed := hb ++ hm ++ kb ++ cbb ++ (if has_sha (x_flags x) then sha256 bs else []) in
-    file = signed ++ x_sig x ++ bs /\
-    length hb = 96%nat /\ length hm = 32%nat /\ length kb = 80%nat /\ length cbb = cb_raw_size (x_cb x) /\
-    length signed = signed_len_of x /\ length (x_sig x) = x_sigsize x /\
-    kw_unwrap (D (x_kek x)) (firstn 72 kb) = Some (x_dek x ++ x_mac x) /\
-    hm = hmac256 (x_mac x) (slice bs 16 (48 + 32 * k)) /\
-    covered (x_mac x) bs (length (x_secs x)).
-Proof.
-  exact coverage21_lemma.
-Qed.
-
-Lemma rom21_build_sha_refuted_thm :
-  exists x file, wf_sbin x /\ has_sha (x_flags x) = true /\ build21 x = Ok file /\
-                 rom21_aes (x_sigsize x) (x_kek x) file = None /\
-                 (exists file' r, build21_fixed x = Ok file' /\ rom21_aes (x_sigsize x) (x_kek x) file' = Some r /\
-                                  r_secs r = spec_of (x_secs x)).
-Proof.
-  exact rom21_build_sha_refuted_lemma.
-Qed.
-
-Lemma parse21_refuted_thm :
-  exists x file p, wf_sbin x /\ build21 x = Ok file /\ spsdk_parse21 true (x_sigsize x) (x_kek x) file = Ok p /\
-                   length (x_secs x) = 2%nat /\ length (p_secs p) = 1%nat /\ x_flags x = 8 /\ p_flags p = 32776.
-Proof.
-  exact parse21_refuted_lemma.
-Qed.
-
-Lemma parse21_first_section_thm :
-  forall (E D : list N -> list N -> list N),
-  (forall k b, length (E k b) = 16%nat) -> (forall k b, length b = 16%nat -> D k (E k b) = b) ->
-  forall counted x file,
-  wf_sbin x -> bcd3 (x_pv x) = true -> bcd3 (x_cv x) = true -> aes_key_ok (x_kek x) = true ->
-  build21_gen E counted x = Ok file ->
-  exists s0 rest os cd,
-    x_secs x = s0 :: rest /\ cmds_export (s_cmds s0) = Ok cd /\ Forall2 (fun c o => cmd_obs c = Ok o) (s_cmds s0) os /\
-    parse21 E D true (x_sigsize x) (x_kek x) file =
-    Ok (mkParsed 32776 (x_pv x) (x_cv x) (x_build x) (x_ts x / 1000000 * 1000000) (x_nonce x) (x_dek x) (x_mac x)
-                 [(s_uid s0, N.of_nat (sec_hmac_count (s_hmac s0) (length cd)), os)] (signed_len_of x) (x_sigsize x)).
-Proof.
-  exact parse21_first_section_lemma.
-Qed.
-
-Lemma parse21_accepts_only_verified_thm :
-  forall (E D : list N -> list N -> list N) sig_ok sigsize kek data p,
-  parse21 E D sig_ok sigsize kek data = Ok p ->
-  sig_ok = true /\
-  (exists keys, kw_unwrap (D kek) (firstn (length (slice data 128 208) - 8) (slice data 128 208)) = Some keys /\
-                p_dek p = firstn 32 keys /\ p_mac p = skipn 32 keys) /\
-  (let i := (p_signed_len p + p_sig_len p)%nat in
-   eqb_list (slice data (i + 16) (i + 48)) (hmac256 (p_mac p) (slice data i (i + 16))) = true).
-Proof.
-  exact parse21_accept_lemma.
-Qed.
-
-Lemma counter_per_block_thm :
-  forall (ek : list N -> list N), (forall b, length (ek b) = 16%nat) ->
-  forall mac nonce ctr s b,
-  forallb wf_cmd (s_cmds s) = true -> sec_export ek mac nonce ctr s = Ok b ->
-  exists hplain cd gs,
-    cmds_export (s_cmds s) = Ok cd /\ length hplain = 16%nat /\
-    b = xblock ek nonce ctr hplain ++ hmac256 mac (xblock ek nonce ctr hplain) ++ concat (map (hmac256 mac) gs) ++ concat gs /\
-    length (concat gs) = length cd /\
-    forall j, (j < length cd / 16)%nat ->
-      nth j (chunks 16 (concat gs)) [] = xblock ek nonce (ctr + N.of_nat (3 + 2 * length gs + j)) (nth j (chunks 16 cd) []).
-Proof.
-  exact counter_per_block_lemma.
 Qed.
